@@ -53,6 +53,19 @@ def gen(rng, kind):
                 cfg["upolys2"][k] = {(0,) + es[1:]: c for es, c in cfg["upolys2"][k].items()} or {(0, 0): 2}
             if cfg["obs"][k] is not None:
                 cfg["obs"][k]["inputs"] = [r[1:] for r in cfg["obs"][k]["inputs"]]
+    if kind != "ode":
+        # Dirichlet conditions on some unknowns, with an explicit selection of output components for some of them
+        # (slices, or an integer index); unknowns of a mixed system that are stationary carry none
+        cfg["bc"] = {}
+        for k in ukeys:
+            if k in cfg["statio_unknowns"] or rng.random() < 0.4:
+                cfg["bc"][k] = None
+                continue
+            nout = 2 if cfg["upolys2"][k] else 1
+            sel = rng.choice([None, [0, 1], [1, 2], 0, 1]) if nout == 2 else rng.choice([None, [0, 1], 0])
+            width = nout if sel is None else 1
+            cfg["bc"][k] = dict(sel=sel, polys=[prand(rng, nv, 1, 2) or {(0,) * nv: 1} for _ in range(width)])
+        cfg["border_times"] = [dy(rng, 0, 4) for _ in range(rng.randint(1, 3))]
     if kind == "ode":
         cfg["ic"] = {k: (dy(rng), float(rng.randint(-2, 2))) for k in ukeys}
     else:
@@ -120,9 +133,29 @@ def build(cfg):
             for k in us:
                 if k not in SU:
                     skw[k]["initial_condition_fun"] = icf[k]
+        bc = cfg.get("bc") or {}
+        border = None
+        if any(v is not None for v in bc.values()):
+            def mkf(polys):
+                def fun(*args):
+                    z = jnp.concatenate([jnp.atleast_1d(a) for a in args])
+                    return jnp.stack([poly_jax(p, z) * jnp.ones(()) for p in polys])
+                return fun
+            def seldim(sel):
+                return None if sel is None else (int(sel) if isinstance(sel, int) else jnp.s_[sel[0]:sel[1]])
+            kw["omega_boundary_fun_dict"] = {k: (mkf(bc[k]["polys"]) if bc.get(k) else None) for k in us}
+            kw["omega_boundary_condition_dict"] = {k: ("dirichlet" if bc.get(k) else None) for k in us}
+            kw["omega_boundary_dim_dict"] = {k: (seldim(bc[k]["sel"]) if bc.get(k) else None) for k in us}
+            for k in us:
+                if bc.get(k):
+                    skw[k].update(omega_boundary_fun=kw["omega_boundary_fun_dict"][k], omega_boundary_condition="dirichlet",
+                                  omega_boundary_dim=kw["omega_boundary_dim_dict"][k])
+            # 1-D space: two facets, x = -1 and x = 2; (rows, coords, facets)
+            border = (jnp.array([[[-1.0, 2.0]]]) if kind == "statio"
+                      else jnp.array([[[t, t], [-1.0, 2.0]] for t in cfg["border_times"]]))
         L = jinns.loss.SystemLossPDE(u_dict=us, dynamic_loss_dict=dl, loss_weights=lw, params_dict=PD, **kw)
         pts = jnp.array(cfg["pts"])
-        batch = PDEStatioBatch(inside_batch=pts, border_batch=None, obs_batch_dict=obs) if kind == "statio" else PDENonStatioBatch(times_x_inside_batch=pts, times_x_border_batch=None, obs_batch_dict=obs)
+        batch = PDEStatioBatch(inside_batch=pts, border_batch=border, obs_batch_dict=obs) if kind == "statio" else PDENonStatioBatch(times_x_inside_batch=pts, times_x_border_batch=border, obs_batch_dict=obs)
         cls = jinns.loss.LossPDEStatio if kind == "statio" else jinns.loss.LossPDENonStatio
         singles = {k: (jinns.loss.LossPDEStatio if k in SU else cls)(u=us[k], dynamic_loss=None, params=PD.extract_params(k), **skw[k]) for k in us}
     return us, PD, L, batch, singles, obs
@@ -167,6 +200,8 @@ def jsonable(c):
     out = dict(c, upolys={k: pj(p) for k, p in c["upolys"].items()}, upolys2={k: (pj(p) if p else None) for k, p in (c.get("upolys2") or {}).items()}, eqs={e: dict(coef=s["coef"], q=pj(s["q"])) for e, s in c["eqs"].items()})
     if "icp" in c:
         out["icp"] = {k: pj(p) for k, p in c["icp"].items()}
+    if c.get("bc"):
+        out["bc"] = {k: (dict(sel=v["sel"], polys=[pj(p) for p in v["polys"]]) if v else None) for k, v in c["bc"].items()}
     return out
 
 
@@ -176,6 +211,8 @@ def unjson(c):
                w={t: tuple(v) for t, v in c["w"].items()})
     if "icp" in c:
         out["icp"] = {k: pu(p) for k, p in c["icp"].items()}
+    if c.get("bc"):
+        out["bc"] = {k: (dict(sel=v["sel"], polys=[pu(p) for p in v["polys"]]) if v else None) for k, v in c["bc"].items()}
     if "ic" in c:
         out["ic"] = {k: tuple(v) for k, v in c["ic"].items()}
     return out
@@ -202,11 +239,13 @@ def generate(tier, seed, casedir, variant):
             dist[f"weight_{s[0]}"] = dist.get(f"weight_{s[0]}", 0) + 1
         if terms["dyn_loss"] != 0.0:
             nontrivial.add(cid)
+        if terms.get("boundary_loss", 0.0) != 0.0:
+            dist["nonzero_boundary_term"] = dist.get("nonzero_boundary_term", 0) + 1
         if len(samples) < 2 and len(cfg["ekeys"]) != len(cfg["ukeys"]):
             samples.append(dict(jsonable(cfg), returned=terms))
     write_cases(casedir, "C13", "R_C13", variant, cases, chunk=100)
     return dict(meta=meta, oracle_violations=viol, evaluations=len(cases), distinct_nontrivial=len(nontrivial), samples=samples, distribution=dist,
-                rule="random systems (ODE / stationary / non-stationary) with 1..3 equations and 1..3 unknowns (counts independent, key names inserted in any order), residuals linear in the unknowns plus a polynomial that is not symmetric in (t, x), scalar / per-key dictionary / missing weights for every field, initial conditions, normalisation samples and observations per unknown (some unknowns without observations; some with a second output channel and an observation slice of their own; half of the non-stationary systems with two or more unknowns are mixed: their first unknown is a stationary field); non-trivial = non-zero dynamic term",
+                rule="random systems (ODE / stationary / non-stationary) with 1..3 equations and 1..3 unknowns (counts independent, key names inserted in any order), residuals linear in the unknowns plus a polynomial that is not symmetric in (t, x), scalar / per-key dictionary / missing weights for every field, initial conditions, normalisation samples and observations per unknown (some unknowns without observations; some with a second output channel and an observation slice of their own; half of the non-stationary systems with two or more unknowns are mixed: their first unknown is a stationary field), Dirichlet conditions on some unknowns with slices / integer indices selecting output components; non-trivial = non-zero dynamic term",
                 oracle_checks=len(cases))
 
 
